@@ -66,7 +66,7 @@ func kitPEM(n string) string {
 
 // kitTLSSettings draws one combination of inline CA / CA file / skip-verify (bool or string form)
 // / refresh interval.
-func kitTLSSettings(n string) *kitTLS {
+func kitTLSSettings(n string, mayBeEmpty ...bool) *kitTLS {
 	k := &kitTLS{cfg: &oidcv1.OIDCConfig{}}
 	switch vn.Choice(n+"-ca-source", 3) {
 	case 1:
@@ -75,6 +75,9 @@ func kitTLSSettings(n string) *kitTLS {
 	case 2:
 		k.file = vn.FilePath(n + "-ca.pem")
 		k.fileData = kitPEM(n + "-file-ca")
+		if (len(mayBeEmpty) == 0 || mayBeEmpty[0]) && vn.Choice(n+"-file-still-empty", 2) == 1 {
+			k.fileData = "" // the file exists but has no content yet (a mounted secret populated later)
+		}
 		k.fileOK = vn.Choice(n+"-file-readable", 2) == 1
 		vn.SetFile(k.file, k.fileData, k.fileOK)
 		k.cfg.TrustedCaConfig = &oidcv1.OIDCConfig_TrustedCertificateAuthorityFile{TrustedCertificateAuthorityFile: k.file}
@@ -141,6 +144,15 @@ func VerifC20_TrustFollowsConfiguration() {
 		vn.Assert("C20/nothing-configured-means-default", vn.And(err == nil, got == nil))
 	case hasCA && k.file != "" && !k.fileOK:
 		vn.Assert("C20/unreadable-ca-file-is-an-error", err != nil)
+	case hasCA && ca == "":
+		// a CA file is configured but still empty: nothing to add to the system roots yet, and
+		// certainly no licence to skip verification ("only when ... no CA is given")
+		vn.Cover("C20/ca-file-still-empty", true)
+		vn.Assert("C20/empty-ca-file-loads", vn.And(err == nil, got != nil))
+		if got != nil {
+			vn.Assert("C20/never-skip-verify-with-a-ca", !got.InsecureSkipVerify)
+			vn.Assert("C20/empty-ca-file-adds-no-roots", got.RootCAs == nil)
+		}
 	case hasCA && !caValid:
 		vn.Assert("C20/invalid-ca-is-an-error", err != nil)
 	case hasCA:
@@ -172,7 +184,7 @@ func VerifC20_PoolingAndRotation() {
 	if same {
 		b = a
 	} else {
-		b = kitTLSSettings("b")
+		b = kitTLSSettings("b", false)
 	}
 	ga, erra := pool.LoadTLSConfig(a.cfg)
 	gb, errb := pool.LoadTLSConfig(b.cfg)
@@ -192,10 +204,10 @@ func VerifC20_PoolingAndRotation() {
 		vn.Assert("C20/different-settings-do-not-share", ga != gb)
 	}
 	// each configuration reflects its own request
-	if hasA {
+	if hasA && caA != "" {
 		vn.Assert("C20/first-reflects-its-ca", ga.RootCAs != nil && ga.RootCAs.Equal(kitSystemPlus(caA)))
 	}
-	if hasB {
+	if hasB && caB != "" {
 		vn.Assert("C20/second-reflects-its-ca", gb.RootCAs != nil && gb.RootCAs.Equal(kitSystemPlus(caB)))
 	}
 	// rotation of a watched CA file
@@ -213,6 +225,7 @@ func VerifC20_PoolingAndRotation() {
 		// what the watcher's tick does when the content changed
 		w.callback([]byte(newPEM))
 		vn.Assert("C20/pooled-object-now-trusts-the-new-ca", ga.RootCAs != nil && ga.RootCAs.Equal(kitSystemPlus(newPEM)))
+		vn.Assert("C20/verification-stays-on-after-rotation", !ga.InsecureSkipVerify)
 		again, err := pool.LoadTLSConfig(a.cfg)
 		vn.Assert("C20/clients-built-later-get-the-same-object", vn.And(err == nil, again == ga))
 		// re-watching the same file supersedes the old watcher
